@@ -642,19 +642,19 @@ theorem fixed_offset (R : Rnd) (start ipd k : ℤ) (h1 : 1 ≤ ipd) (hk0 : 0 ≤
     second and its nanosecond field is below 1e9 -/
 theorem asis_eq_fixed (r : ℚ → ℚ) (start ipd k : ℤ) (hsec : roundedOff r ipd k = wholeOff r ipd k)
     (hns : nanosRaw r ipd k < 1000000000) :
-    getTimeFromTicks r start ipd k = getTimeFromTicksFixed r start ipd k := by
-  unfold getTimeFromTicks getTimeFromTicksFixed
+    getTimeFromTicksOld r start ipd k = getTimeFromTicksFixed r start ipd k := by
+  unfold getTimeFromTicksOld getTimeFromTicksFixed
   rw [if_neg (by omega), hsec]
 
 /-- the decoder as written: offset from the interval start -/
 theorem asis_offset (R : Rnd) (start ipd k : ℤ) (h1 : 1 ≤ ipd) (hk0 : 0 ≤ k) (hk1 : k < 4294967296)
     (hs0 : 0 ≤ start) (hs1 : start + 86403 < 18446744073709551616) :
     (roundedOff R.r ipd k = wholeOff R.r ipd k ∨ roundedOff R.r ipd k = wholeOff R.r ipd k + 1) →
-    (getTimeFromTicks R.r start ipd k).offsetNs start =
+    (getTimeFromTicksOld R.r start ipd k).offsetNs start =
       roundedOff R.r ipd k * 1000000000 + nanosRaw R.r ipd k := by
   obtain ⟨_, _, hW0, hW1, hN0, hN1, _⟩ := decode_core R ipd k h1 hk0 hk1
   intro h
-  unfold getTimeFromTicks Decoded.offsetNs two64
+  unfold getTimeFromTicksOld Decoded.offsetNs two64
   simp only
   rw [Int.emod_eq_of_lt (by omega) (by omega)]
   ring
